@@ -141,8 +141,8 @@ leaf positions for all inputs, on the zoo for nested shapes) and (ii) the builde
 every non-excluded sample that tracer accepts (the builder-side obligation `Acc → push succeeds and decodes to x`), THEN
 tracing succeeds ⇒ the traced root field accepts every sample.
 Missing: (i) for arbitrary nested samples and (ii) — the refinement theorem of the builder model; the correspondence
-suite found two cells where (ii) is false on the current tree (known findings C06-char-into-float and
-C06-to-string-into-dictionary). -/
+suite found four cells where (ii) is false on the current tree (known findings C06-char-into-float,
+C06-to-string-into-dictionary, C06-unseen-first-variant-default, C06-data-less-newtype-variant-as-string). -/
 theorem C06_closure_partial (B : BuilderInterface) (excl : Excluded) (c : Code) (o : Options) (xs : List SVal)
     (t : Tracer) (f : Field)
     (hacc : ∀ x ∈ xs, Acc c o t x)
